@@ -44,7 +44,11 @@ func verifClone(v any) any {
 	return v
 }
 
-const verifNPure = 9
+const verifNPure = 10
+
+type verifOuterM struct {
+	Sub map[string]any `json:"sub"`
+}
 
 type verifOuter2 struct {
 	In  verifInner `json:"in"`
@@ -114,6 +118,24 @@ func verifPureCase(k int, tag string) (mk func() Type, arg any) {
 			m["in"] = map[string]any{"a": nondetInt64(tag + "ia")}
 		}
 		arg = m
+	case 9: // a map-backed sub-object with two sibling properties of one defaulted object type, under a struct-mapped root
+		mk = func() Type {
+			leaf := NewObjectSchema("Leaf", map[string]*PropertySchema{
+				"x": NewPropertySchema(NewIntSchema(amin, nil, nil), nil, false, nil, nil, nil, verifStrPtr("5"), nil),
+			})
+			sub := NewObjectSchema("Sub", map[string]*PropertySchema{
+				"left":  NewPropertySchema(leaf, nil, false, nil, nil, nil, nil, nil),
+				"right": NewPropertySchema(leaf, nil, false, nil, nil, nil, nil, nil),
+			})
+			return NewStructMappedObjectSchema[verifOuterM]("OuterM", map[string]*PropertySchema{
+				"sub": NewPropertySchema(sub, nil, false, nil, nil, nil, nil, nil),
+			})
+		}
+		m := map[string]any{}
+		if nondetBool(tag + "hasSub") {
+			m["sub"] = map[string]any{"left": map[string]any{"x": nondetInt64(tag + "lx")}}
+		}
+		arg = m
 	case 8: // two properties of one sub-object type: one overrides a member default, its sibling does not
 		mk = func() Type {
 			inner := NewStructMappedObjectSchema[verifInner]("Inner", map[string]*PropertySchema{
@@ -153,6 +175,9 @@ func verifPureCase(k int, tag string) (mk func() Type, arg any) {
 // one evaluation in insertion order, one under every iteration order of every map touched: same verdict and result
 func VerifC12_OrderIndependence() {
 	k := nondetChoice("case", verifNPure-1) // the two-sibling family (8) multiplies the orders of five maps: history and argument checks only
+	if k == 8 {
+		k = 9
+	}
 	mk, arg := verifPureCase(k, "")
 	s := mk()
 	op := nondetChoice("op", 2)
